@@ -2,7 +2,7 @@ import sys, os, traceback, fcntl
 from . import core
 
 MODULES = {
-    'C08': 'check_lookup', 'C07': 'check_c07', 'C10': 'check_c10', 'C17': 'check_c17', 'C16': 'check_c16', 'C15': 'check_c15', 'C09': 'check_c09', 'C14': 'check_c14', 'C01': 'check_stack', 'C02': 'check_stack', 'C11': 'check_stack', 'C12': 'check_stack', 'C20': 'check_stack',
+    'C08': 'check_lookup', 'C07': 'check_c07', 'C10': 'check_c10', 'C17': 'check_c17', 'C16': 'check_c16', 'C19': 'check_c19', 'C18': 'check_c18', 'C15': 'check_c15', 'C09': 'check_c09', 'C14': 'check_c14', 'C01': 'check_stack', 'C02': 'check_stack', 'C11': 'check_stack', 'C12': 'check_stack', 'C20': 'check_stack',
     'C03': 'check_meta', 'C04': 'check_meta', 'C05': 'check_meta', 'C06': 'check_meta', 'C13': 'check_meta',
 }
 
